@@ -52,4 +52,16 @@ theorem C07_code_has_move_iff (s : GameState) (pp : PlayPhase) (hph : s.phase = 
   subst h1 h2
   exact C07_has_move_iff s pp hph h3
 
+/-- **C07 for the code as it is now**: in a play-phase state with step counter at most 3, if the regenerated
+`is_terminal` returns "no result" then the list the regenerated `valid_actions` returns is not empty: a driver that
+asks for the result before asking for actions never gets stuck -/
+theorem C07_code_no_result_nonempty (s : GameState) (pp : PlayPhase) (hph : s.phase = .play pp) (h3 : pp.step ≤ 3)
+    (l : List Action) (ht : GameState_is_terminal s = .ok none) (hl : GameState_valid_actions s = .ok l) : l ≠ [] := by
+  simp only [bridge_GameState_is_terminal] at ht
+  simp only [bridge_GameState_valid_actions] at hl
+  have h1 := (C07_value_of_ok (RsAgree.is_terminal_eq s) ht).2
+  have h2 := (C07_value_of_ok (RsAgree.valid_actions_eq s) hl).2
+  subst h2
+  exact C07_no_result_nonempty s pp hph h3 h1.symm
+
 end Arimaa
